@@ -9,7 +9,7 @@ import random
 import warnings
 
 import numpy as np
-from scipy.constants import h as h_planck
+from scipy.constants import h as h_planck, c as c_light
 
 from sim import core, seams, common
 from sim.core import Violation
@@ -38,7 +38,7 @@ ASSUMPTIONS = [
     "output OSNR <= input OSNR is implied by (gain sqrt(G) on signal and on incoming noise) + (ASE covariance positive "
     "semi-definite) and is not re-measured statistically",
 ]
-N_RUNS = {"quick": 1200, "thorough": 16000}
+N_RUNS = {"quick": 2400, "thorough": 16000}
 NONTRIVIAL_OPS = 3
 
 
@@ -50,7 +50,8 @@ def tasks(tier, master):
 def generate(seed, tier):
     rng = random.Random(seed)
     ops = [common.gen_gv_op(rng)] if rng.random() < 0.85 else []
-    w = {"edfa": 8, "gv": 2, "bad": 1, "reseed": rng.choice([0, 1, 2]), "freeze": rng.choice([0, 1])}
+    w = {"edfa": 8, "gv": 2, "bad": 1, "reseed": rng.choice([0, 1, 2]), "freeze": rng.choice([0, 1]),
+         "clean": rng.choice([0, 1]), "leak": rng.choice([0, 0, 1])}
     kinds = [k for k, c in w.items() for _ in range(c)]
     last_gn = None
     for _ in range(rng.randint(4, 9)):
@@ -64,6 +65,7 @@ def generate(seed, tier):
                        "BWf": rng.choice([None, None, rng.uniform(0.05, 0.45), rng.uniform(0.05, 0.45)]),
                        "BWabs": rng.choice([None, 1e9, 4e9, 10e9]), "iso": rng.random() < 0.4, "seed": rng.getrandbits(31),
                        "sdtype": rng.choice(["complex", "complex", "real"])})
+            op["gform"] = rng.choice(["py", "py", "py", "npf64", "arr0d", "arr1", "int"])
             if last_gn is not None and rng.random() < 0.4:
                 op["G"], op["NF"] = last_gn      # the same amplifier again (possibly on another grid / carrier)
             last_gn = (op["G"], op["NF"])
@@ -82,6 +84,10 @@ def generate(seed, tier):
                 ops[-1] = {"op": "gv", "kw": {"R": R_, "fs": R_ * rng.choice([2.5, 3.5, 2.6, 7.3, 12.75])}}
         elif k == "bad":
             ops.append({"op": "bad", "what": rng.choice(["es", "arr", "list", "none"])})
+        elif k == "clean":
+            ops.append({"op": "clean"})      # back to the default grid and carrier (often followed by a new gv())
+        elif k == "leak":
+            ops.append({"op": "leak", "upto": rng.choice([40, 70, 140]), "every": rng.choice([1, 1, 3])})
         elif k == "reseed":
             ops.append({"op": "reseed", "s": rng.getrandbits(31)})
         elif k == "freeze":
@@ -120,6 +126,7 @@ class Bench:
         self.rec = rec
         self.clock = seams.install_clock(0)
         self.frozen = False
+        self.wl = 1550e-9
 
     def apply(self, op, step):
         self.rec.n_ops += 1
@@ -132,8 +139,34 @@ class Bench:
         common.apply_gv(op["kw"])
         self.pristine.gv(op["kw"])
         self.after_gv = True
+        self.wl = float(op["kw"].get("wavelength", 1550e-9))     # every gv() call sets the carrier (default 1550 nm)
         self.rec.fault("gv_reconf")
         return f"{self.gv.fs:.3e}/{self.gv.f0:.4e}"
+
+    def op_clean(self, op):
+        self.gv.clean()
+        self.pristine.clean()
+        self.after_gv = True
+        self.wl = 1550e-9
+        self.rec.fault("gv_clean")
+        return f"{self.gv.fs:.3e}/{self.gv.f0:.4e}"
+
+    def op_leak(self, op):
+        """Rejected calls pile up on the library's timer stack; the amplifier must keep working and keep giving
+        the same result (all draws served as zeros) at every depth."""
+        x = self.O(np.exp(1j * np.arange(32)) * 0.01)
+
+        def reject():
+            try:
+                self.EDFA(np.ones(8), 10.0, 5.0)
+            except (TypeError, ValueError, AttributeError):
+                pass
+
+        def valid():
+            with ScriptedRNG("zero"):
+                y = self.EDFA(x, 13.0, 5.0, 0.3 * float(self.gv.fs))
+            return core.array_digest(np.asarray(y.signal)) + core.array_digest(self._nz(y, 32))
+        return common.leak_sweep(reject, valid, op["upto"], "C10/gain-signal", self.rec, op.get("every", 1), "EDFA call")
 
     def op_reseed(self, op):
         np.random.seed(op["s"])
@@ -164,7 +197,8 @@ class Bench:
         return np.zeros((2, n), dtype=complex) if y.noise is None else np.asarray(y.noise).astype(complex)
 
     def op_edfa(self, op):
-        fs, f0 = float(self.gv.fs), float(self.gv.f0)
+        # the carrier is what the last gv()/clean() of this history configured (own record, not the library's gv.f0)
+        fs, f0 = float(self.gv.fs), c_light / self.wl
         sig, noise = build_field(op, fs)
         if op["sdtype"] == "real":
             sig = np.abs(sig) if op["field"] != "random" else sig.real
@@ -180,8 +214,20 @@ class Bench:
         dig0 = (seams.buf_digest(x.signal), seams.buf_digest(x.noise))
         what = f"EDFA/pol{npol}/{op['innoise'] or 'clean'}/{op['sdtype']}/G{G:.3g}"
 
+        # gain and noise figure as the caller's number-like objects (one object for the whole bundle)
+        gform = op.get("gform", "py")
+        if gform == "int" and (float(G) != int(G) or float(NF) != int(NF)):
+            gform = "py"
+        mkn = {"py": lambda v: v, "npf64": np.float64, "arr0d": lambda v: np.array(float(v)),
+               "arr1": lambda v: np.array([float(v)]), "int": int}[gform]
+        Garg, NFarg = mkn(G), mkn(NF)
+
         def run(xx, bw=None):
-            return self.EDFA(xx, G, NF) if bw is None else self.EDFA(xx, G, NF, bw)
+            y_ = self.EDFA(xx, Garg, NFarg) if bw is None else self.EDFA(xx, Garg, NFarg, bw)
+            if float(np.asarray(Garg).ravel()[0]) != float(G) or float(np.asarray(NFarg).ravel()[0]) != float(NF):
+                raise Violation("C10/type", f"{what}: EDFA modified its G/NF argument ({gform}): G={Garg!r}, NF={NFarg!r} "
+                                            f"after a call with G={G}, NF={NF}", "mutate/gain")
+            return y_
 
         # ---- zero twin: gain law and polarisation bookkeeping (no filter) -----------------------
         with ScriptedRNG("zero") as z:
